@@ -292,6 +292,10 @@ func (w *worker) emit(cs *caseT) {
 	}
 	c := *cs
 	c.freeze()
+	if out.AttrPre {
+		// the claim alone fails: one failure class, whatever message would have followed
+		c.Msg, c.Field, c.Class, c.Desc = cs.PreMsg, cs.PreField, cs.PreClass, cs.PreDesc
+	}
 	for _, v := range out.Viols {
 		r.Viols = append(r.Viols, violRec{Case: &c, Oracle: v.Oracle, What: v.What})
 	}
